@@ -266,12 +266,18 @@ def run(ctx):
                              tm['span'], key=b.name + '|T4|icc')
             if d[0] == 'discr' and any(x[0] == 'call' and x[1].endswith('parse_color_profile_type') for x in walk(d)) \
                     and tm['ty'] == 'isize' and d[1][0] != 'try':
-                # match on the decoded enum
-                tb = q.switch_table(b, sw)
-                for v, s in tb['values'].items():
-                    pass
+                # `matches!(profile_type, ICC)` / a match on the decoded enum: the ICC arm (discriminant 2) must refuse
+                icc_edges = [q.thread_bool(b, s_) for v_, s_ in tm['targets'] if v_ == 2]
+                if icc_edges:
+                    found_icc += 1
+                    ok = all(q.arm_always_err(b, e_) for e_ in icc_edges)
+                    ctx.inst('T4', 'color-profile#icc', ok, 'profile type is ICC (enum discriminant 2) -> %s' % ('Err on every path' if ok else 'NOT always Err'),
+                             tm['span'], key=b.name + '|T4|icc')
         ctx.floor('fixed-gamma flag tests', found_gamma, 1)
         ctx.floor('ICC profile tests', found_icc, 1)
+        if found_icc == 0:
+            ctx.inst('T4', 'color-profile#icc', False, 'no branch of color_profile::parse_chunk refuses the ICC profile type (== ICC / matches!(.., ICC) / match arm)',
+                     b.span, key=b.name + '|T4|icc')
         literal_arms += 2
 
     # ---------------- T4c bits per tile
